@@ -215,6 +215,13 @@ def vacuity(cfg):
     return miss
 
 
+def sample_reads(cfg, hist):
+    r = prepare(cfg)
+    outs = [str(do_read(r, op))[:40] for op in hist]
+    return dict(cfg={k: str(v) for k, v in cfg.items()}, history=hist, outcomes=outs, requests_seen=len(r.dev.log),
+                write_requests_seen=len(written(r.dev)))
+
+
 def run(tier, seed, rep):
     cfgs = configs(tier)
     depth = 3 if tier == 'thorough' else 2
@@ -257,8 +264,7 @@ def run(tier, seed, rep):
                      f'{len(cfgs)} configurations (families, capability fallbacks, eco-mode register contents); connect() and '
                      f'discover(); every integer argument in windows round each guard: export limit -70000..-1, DoD '
                      f'-300..-1 and 101..400, eco power / SoC -300..-1 and 101..400, near-miss setting ids',
-               samples=[dict(history=['read_device_info', 'get_operation_mode', 'read_settings_data']),
-                        dict(call='set_operation_mode', args=['ECO_CHARGE', 101, 50])])
+               samples=[sample_reads(cfgs[0], ['read_device_info', 'get_operation_mode', 'read_settings_data'])])
     return dict(level='model_checking', coverage=cov,
                 assumptions=['device model logs every request it can parse; writes = Modbus functions 6/16, AA55 02xx/03xx'])
 
